@@ -992,12 +992,23 @@ Proof. destruct e; simpl; intros; try discriminate; auto. Qed.
 Definition ptt (es : exprlist) : list ptok :=
   match es with ELNil => [] | _ => tk 44 :: pr_targets es end.
 
+(* the targets of an assignment as exprstat reads them: the first by primaryexp, the others by the loop *)
+Definition tgt_clause (es : exprlist) : Prop :=
+  match es with
+  | ELNil => True
+  | ELCons e r0 =>
+    all_var es = true -> forall r fuel, c_el es <=n fuel ->
+      p_suffixed d fuel (pr_prefix e ++ ptt r0 ++ tk 61 :: r) = POk (norm_e e, false) (ptt r0 ++ tk 61 :: r)
+      /\ p_targets d fuel (ptt r0 ++ tk 61 :: r) = POk (norm_el r0) (tk 61 :: r)
+  end.
+
 Definition P_el (es : exprlist) : Prop :=
   wf_el es = true ->
   (nonempty_el es = true -> forall r fuel, safe r = true -> c_el es <=n fuel ->
      p_explist d fuel (pr_el es ++ r) = POk (norm_el es) r)
   /\ (all_var es = true -> forall r fuel, c_el es <=n fuel ->
-     p_targets d fuel (ptt es ++ tk 61 :: r) = POk (norm_el es) (tk 61 :: r)).
+     p_targets d fuel (ptt es ++ tk 61 :: r) = POk (norm_el es) (tk 61 :: r))
+  /\ tgt_clause es.
 
 Lemma pr_el_hd es r : nonempty_el es = true -> in_tys efirst_tys (hd_ty (pr_el es ++ r)) = true.
 Proof.
@@ -1007,14 +1018,14 @@ Qed.
 
 Lemma P_el_nil : P_el ELNil.
 Proof.
-  intros _. split; [discriminate|]. intros _ r fuel Hf. cbn [ptt app norm_el c_el] in *.
+  intros _. split; [discriminate|]. split; [|exact I]. intros _ r fuel Hf. cbn [ptt app norm_el c_el] in *.
   destruct fuel as [|f]; [lia|]. rewrite p_targets_eq. reflexivity.
 Qed.
 
 Lemma P_el_cons e r0 : P_e e -> P_el r0 -> P_el (ELCons e r0).
 Proof.
   intros He Hr W. cbn [wf_el] in W. apply andb_true_iff in W. destruct W as [We Wr].
-  destruct (He We) as [H2 H1]. destruct (Hr Wr) as [Hx Ht]. split.
+  destruct (He We) as [H2 H1]. destruct (Hr Wr) as (Hx & Ht & _). split; [|split].
   - intros _ r fuel Hs Hf. cbn [c_el norm_el] in *. destruct fuel as [|f]; [lia|].
     rewrite p_explist_eq. destruct r0 as [|e' r1].
     + cbn [pr_el]. rewrite (E1_value e H1 r f) by (auto using safe_opfollow, safe_nosuf; lia).
@@ -1037,10 +1048,21 @@ Proof.
       rewrite (Ht Hvr r f) by lia. reflexivity.
     + intros fu Hfu. apply sufloop_stop; auto. destruct r0; reflexivity.
     + pose proof (c_e_ge e). lia.
+  - cbn [tgt_clause]. intros Hv r fuel Hf. cbn [all_var] in Hv. apply andb_true_iff in Hv. destruct Hv as [Hve Hvr].
+    destruct (is_var_norm' e Hve) as [Hvn Hfl].
+    assert (Hpf : pfx_ok e = true) by (destruct e; try discriminate; reflexivity).
+    cbn [c_el] in Hf. pose proof (c_e_ge e). split.
+    + rewrite <- Hfl. apply (H2 Hpf _ _ 1%nat); [|lia].
+      intros fu Hfu. apply sufloop_stop; auto. destruct r0; reflexivity.
+    + apply Ht; auto. lia.
 Qed.
 
 (* turning "the first token is in this class" into the tests the parser makes *)
 Ltac by_class H := tys H; lia.
+(* one goal per member of the class, with pty t rewritten to it *)
+Ltac cases_class H :=
+  unfold in_tys, sfirst_tys, efirst_tys in H; cbn [existsb] in H;
+  repeat (apply orb_true_iff in H; destruct H as [H|H]); try discriminate H; apply Z.eqb_eq in H.
 
 (* ---------- call arguments ---------- *)
 
@@ -1267,10 +1289,635 @@ Proof.
   - apply bfollow_safe; auto.
   - cbn [pr_b]. destruct l; split; try reflexivity; cbv; discriminate.
   - cbn [wf_b] in W. apply andb_true_iff in W. destruct W as [Ws _].
-    cbn [pr_b]. rewrite <- app_assoc.
+    cbn [pr_b]. rewrite <- !app_assoc.
     pose proof (pr_s_hd s ((if sm || starts_paren_b r0 then [tk 59] else []) ++ pr_b r0 ++ r) Ws) as Hh.
     assert (Hs : starts_paren_s s = false) by (destruct s; auto).
     pose proof (pr_s_hd_noparen s ((if sm || starts_paren_b r0 then [tk 59] else []) ++ pr_b r0 ++ r) Ws Hs) as Hn.
     destruct (pr_s s ++ _) as [|t X]; [discriminate|].
-    cbn [hd_ty safe] in *. unfold starts_suffix, binop_of. split; by_class Hh.
+    cbn [hd_ty safe] in *. unfold starts_suffix, binop_of.
+    cases_class Hh; try congruence; rewrite Hh; split; try reflexivity; discriminate.
 Qed.
+
+(* ----- function bodies ----- *)
+
+Ltac norm_app := repeat (rewrite <- app_assoc || rewrite <- app_comm_cons); cbn [app].
+
+Lemma P_fb_body ps va b : P_b b -> P_fb (FBody ps va b).
+Proof.
+  intros Hb W r fuel Hf. cbn [wf_fb pr_fb norm_fb c_fb] in *.
+  destruct fuel as [|f]; [lia|]. rewrite p_funcbody_eq. norm_app. cbn [expect].
+  change (pty (tk 40) =? 40) with true. cbv iota.
+  assert (BODY : p_block d f (pr_b b ++ tk TEnd :: r) = POk (norm_b b) (tk TEnd :: r))
+    by (apply Hb; auto; lia).
+  destruct ps as [|a ps'].
+  - destruct va.
+    + cbn [pr_params app]. change (pty (tk T3Comma) =? 41) with false. cbv iota.
+      change (tk T3Comma :: tk 41 :: pr_b b ++ tk TEnd :: r)
+        with (pr_params [] true ++ tk 41 :: pr_b b ++ tk TEnd :: r).
+      rewrite params_rt by (auto; simpl; lia). cbn [pbind fst snd].
+      rewrite BODY. cbn [pbind expect].
+      change (pty (tk TEnd) =? TEnd) with true. reflexivity.
+    + cbn [pr_params app]. change (pty (tk 41) =? 41) with true. cbv iota.
+      rewrite BODY. cbn [pbind expect].
+      change (pty (tk TEnd) =? TEnd) with true. reflexivity.
+  - assert (E : exists X, pr_params (a :: ps') va = tname a :: X) by (destruct va, ps'; cbn; eauto).
+    destruct E as (X & E). pose proof E as E'. rewrite E. cbn [app].
+    change (pty (tname a) =? 41) with false. cbv iota.
+    change (tname a :: X ++ tk 41 :: pr_b b ++ tk TEnd :: r) with ((tname a :: X) ++ tk 41 :: pr_b b ++ tk TEnd :: r).
+    rewrite <- E'. rewrite params_rt by (try (left; congruence); simpl in *; lia). cbn [pbind fst snd].
+    rewrite BODY. cbn [pbind expect].
+    change (pty (tk TEnd) =? TEnd) with true. reflexivity.
+Qed.
+
+(* ----- blocks ----- *)
+
+Lemma P_b_nil : P_b BNil.
+Proof.
+  intros _ r fuel Hr Hf. cbn [pr_b app norm_b c_b] in *. destruct fuel as [|f]; [lia|].
+  rewrite p_block_eq. cbv zeta. destruct (bfollow_safe r Hr) as [_ H59]. rewrite (demp_id r H59).
+  destruct r as [|t X]; auto. cbn [bfollow] in Hr. rewrite Hr. reflexivity.
+Qed.
+
+Lemma P_b_last l sm : P_l l -> P_b (BLast l sm).
+Proof.
+  intros Hl W r fuel Hr Hf. cbn [wf_b pr_b norm_b c_b] in *. rewrite <- app_assoc. apply Hl; auto. lia.
+Qed.
+
+Lemma opt_semi_cons X : opt_semi (tk 59 :: X) = (true, X).
+Proof. reflexivity. Qed.
+
+Lemma opt_semi_none l : hd_ty l <> 59 -> opt_semi l = (false, l).
+Proof. destruct l as [|t X]; auto. cbn [hd_ty opt_semi]. intros. replace (pty t =? 59) with false by lia. reflexivity. Qed.
+
+Lemma P_b_cons s sm r0 : P_s s -> P_b r0 -> P_b (BCons s sm r0).
+Proof.
+  intros Hs Hb W r fuel Hr Hf. cbn [wf_b pr_b norm_b c_b] in *.
+  apply andb_true_iff in W. destruct W as [Ws Wb].
+  rewrite <- !app_assoc. destruct fuel as [|f]; [lia|]. rewrite p_block_eq. cbv zeta.
+  set (sepz := if sm || starts_paren_b r0 then [tk 59] else []).
+  pose proof (pr_s_hd s (sepz ++ pr_b r0 ++ r) Ws) as Hh.
+  assert (H59 : hd_ty (pr_s s ++ sepz ++ pr_b r0 ++ r) <> 59).
+  { destruct (pr_s s ++ _) as [|t X]; [discriminate|]. cbn [hd_ty] in *. cases_class Hh; rewrite Hh; discriminate. }
+  rewrite (demp_id _ H59).
+  destruct (pr_s s ++ sepz ++ pr_b r0 ++ r) as [|t X] eqn:Et; [discriminate|].
+  cbn [hd_ty] in Hh.
+  assert (T1 : block_follow t = false) by (unfold block_follow; cases_class Hh; rewrite Hh; reflexivity).
+  assert (T2 : (pty t =? TReturn) = false) by (cases_class Hh; rewrite Hh; reflexivity).
+  assert (T3 : (pty t =? TBreak) = false) by (cases_class Hh; rewrite Hh; reflexivity).
+  rewrite T1, T2, T3. rewrite <- Et.
+  assert (Hsafe : safe (sepz ++ pr_b r0 ++ r) = true /\
+                  opt_semi (sepz ++ pr_b r0 ++ r) = (negb (match sepz with [] => true | _ => false end), pr_b r0 ++ r)).
+  { unfold sepz. destruct (sm || starts_paren_b r0) eqn:Esm.
+    - split; reflexivity.
+    - apply orb_false_iff in Esm. destruct Esm as [_ Esp].
+      destruct (next_safe r0 r Wb Hr Esp) as [S1 S2]. split; [exact S1|]. apply opt_semi_none; auto. }
+  destruct Hsafe as [S1 S2].
+  rewrite (Hs Ws _ f S1) by lia. cbn [pbind]. rewrite S2.
+  rewrite (Hb Wb r f Hr) by lia. reflexivity.
+Qed.
+
+(* ----- return / break ----- *)
+
+Lemma P_l_break : P_l LBreak.
+Proof.
+  intros _ sm r fuel Hr Hf. cbn [pr_l norm_l c_l app] in *. destruct fuel as [|f]; [lia|].
+  rewrite p_block_eq. cbv zeta. rewrite demp_id by (cbv; discriminate).
+  change (block_follow (tk TBreak)) with false. change (pty (tk TBreak) =? TReturn) with false.
+  change (pty (tk TBreak) =? TBreak) with true. cbv iota.
+  destruct (bfollow_safe r Hr) as [_ H59].
+  destruct sm; cbn [app]; [rewrite opt_semi_cons|rewrite (opt_semi_none _ H59)]; reflexivity.
+Qed.
+
+Lemma P_l_return es : P_el es -> P_l (LReturn es).
+Proof.
+  intros He W sm r fuel Hr Hf. cbn [wf_l pr_l norm_l c_l] in *. destruct fuel as [|f]; [lia|].
+  rewrite p_block_eq. cbv zeta. rewrite <- app_comm_cons. rewrite demp_id by (cbv; discriminate).
+  change (block_follow (tk TReturn)) with false. change (pty (tk TReturn) =? TReturn) with true. cbv iota.
+  destruct (bfollow_safe r Hr) as [Sr H59].
+  destruct es as [|e r0].
+  - cbn [pr_el app norm_el].
+    destruct sm.
+    + cbn [app]. change (block_follow (tk 59) || (pty (tk 59) =? 59)) with true. cbv iota.
+      rewrite opt_semi_cons. reflexivity.
+    + cbn [app]. destruct (bfollow_cases r Hr) as [->|(t & X & -> & Ht)]; [reflexivity|].
+      assert (Hb : block_follow t = true) by (cbn [bfollow] in Hr; exact Hr). rewrite Hb. cbn [orb].
+      rewrite (opt_semi_none (t :: X)) by exact H59. reflexivity.
+  - pose proof (pr_el_hd (ELCons e r0) ((if sm then [tk 59] else []) ++ r) eq_refl) as Hh.
+    rewrite <- ?app_assoc.
+    destruct (pr_el (ELCons e r0) ++ _) as [|t2 X2] eqn:Et; [discriminate|].
+    cbn [hd_ty] in Hh.
+    assert (T : (block_follow t2 || (pty t2 =? 59)) = false)
+      by (unfold block_follow; cases_class Hh; rewrite Hh; reflexivity).
+    rewrite T. rewrite <- Et. destruct (He W) as [Hx _].
+    assert (Ss : safe ((if sm then [tk 59] else []) ++ r) = true) by (destruct sm; [reflexivity|exact Sr]).
+    rewrite (Hx eq_refl _ f Ss) by lia. cbn [pbind].
+    destruct sm; [cbn [app]; rewrite opt_semi_cons|cbn [app]; rewrite (opt_semi_none _ H59)]; reflexivity.
+Qed.
+
+(* ----- else parts ----- *)
+
+Lemma P_else_none : P_else ElseNone.
+Proof. intros _ r fuel Hf. cbn [c_else] in Hf. destruct fuel as [|f]; [lia|]. rewrite p_else_eq. reflexivity. Qed.
+
+Lemma P_else_else b : P_b b -> P_else (Else b).
+Proof.
+  intros Hb W r fuel Hf. cbn [wf_else pr_else norm_else c_else] in *. destruct fuel as [|f]; [lia|].
+  rewrite p_else_eq. cbv zeta. rewrite <- app_comm_cons, <- app_assoc. cbn [app].
+  change (pty (tk TElse) =? TElseIf) with false. change (pty (tk TElse) =? TElse) with true. cbv iota.
+  rewrite (Hb W (tk TEnd :: r) f eq_refl) by lia. cbn [pbind expect].
+  change (pty (tk TEnd) =? TEnd) with true. reflexivity.
+Qed.
+
+Lemma then_follow X : opfollow 0 (tk TThen :: X) = true /\ nosuf (tk TThen :: X) = true.
+Proof. split; reflexivity. Qed.
+
+Lemma P_else_elseif c b e : P_e c -> P_b b -> P_else e -> P_else (ElseIf c b e).
+Proof.
+  intros Hc Hb He W r fuel Hf. cbn [wf_else pr_else norm_else c_else] in *.
+  apply andb_true_iff in W. destruct W as [W We]. apply andb_true_iff in W. destruct W as [Wc Wb].
+  destruct (Hc Wc) as [_ C1]. destruct fuel as [|f]; [lia|].
+  rewrite p_else_eq. cbv zeta. rewrite <- app_comm_cons, <- app_assoc. cbn [app]. rewrite <- app_assoc.
+  change (pty (tk TElseIf) =? TElseIf) with true. cbv iota.
+  rewrite (E1_value c C1 _ f) by (try reflexivity; lia). cbn [pbind expect].
+  change (pty (tk TThen) =? TThen) with true. cbv iota.
+  assert (Bf : bfollow (pr_else e ++ r) = true) by (destruct e; reflexivity).
+  rewrite (Hb Wb _ f Bf) by lia. cbn [pbind].
+  rewrite (He We r f) by lia. reflexivity.
+Qed.
+
+(* ----- statements ----- *)
+
+(* evaluate the comparisons between closed token types *)
+Ltac eval_tests :=
+  repeat match goal with
+  | |- context [?a =? ?b] =>
+    let v := eval vm_compute in (a =? b) in
+    match v with
+    | true => change (a =? b) with true
+    | false => change (a =? b) with false
+    end
+  end; cbv iota; cbn [andb orb negb].
+
+Ltac stat_start fuel Hf :=
+  destruct fuel as [|fuel]; [lia|]; rewrite p_stat_eq; cbv zeta; norm_app;
+  match goal with |- context [pty (tk ?k)] => change (pty (tk k)) with k end; eval_tests.
+
+Lemma follow_tok k X : starts_suffix (tk k) = false -> binop_of (tk k) = None ->
+  opfollow 0 (tk k :: X) = true /\ nosuf (tk k :: X) = true.
+Proof. intros H1 H2. cbn [opfollow nosuf]. rewrite H1, H2. split; reflexivity. Qed.
+
+Lemma P_s_do b : P_b b -> P_s (SDo b).
+Proof.
+  intros Hb W r fuel Hs Hf. cbn [wf_s pr_s norm_s c_s] in *. stat_start fuel Hf.
+  rewrite (Hb W (tk TEnd :: r) fuel eq_refl) by lia. cbn [pbind expect]. eval_tests. reflexivity.
+Qed.
+
+Lemma P_s_while c b : P_e c -> P_b b -> P_s (SWhile c b).
+Proof.
+  intros Hc Hb W r fuel Hs Hf. cbn [wf_s pr_s norm_s c_s] in *.
+  apply andb_true_iff in W. destruct W as [Wc Wb]. destruct (Hc Wc) as [_ C1]. stat_start fuel Hf.
+  rewrite (E1_value c C1 _ fuel) by (try reflexivity; lia). cbn [pbind expect]. eval_tests.
+  rewrite (Hb Wb (tk TEnd :: r) fuel eq_refl) by lia. cbn [pbind expect]. eval_tests. reflexivity.
+Qed.
+
+Lemma P_s_repeat b c : P_b b -> P_e c -> P_s (SRepeat b c).
+Proof.
+  intros Hb Hc W r fuel Hs Hf. cbn [wf_s pr_s norm_s c_s] in *.
+  apply andb_true_iff in W. destruct W as [Wb Wc]. destruct (Hc Wc) as [_ C1]. stat_start fuel Hf.
+  rewrite (Hb Wb (tk TUntil :: pr_e 0 0 c ++ r) fuel eq_refl) by lia. cbn [pbind expect]. eval_tests.
+  rewrite (E1_value c C1 r fuel) by (auto using safe_opfollow, safe_nosuf; lia). reflexivity.
+Qed.
+
+Lemma P_s_if c b e : P_e c -> P_b b -> P_else e -> P_s (SIf c b e).
+Proof.
+  intros Hc Hb He W r fuel Hs Hf. cbn [wf_s pr_s norm_s c_s] in *.
+  apply andb_true_iff in W. destruct W as [W We]. apply andb_true_iff in W. destruct W as [Wc Wb].
+  destruct (Hc Wc) as [_ C1]. stat_start fuel Hf.
+  rewrite (E1_value c C1 _ fuel) by (try reflexivity; lia). cbn [pbind expect]. eval_tests.
+  assert (Bf : bfollow (pr_else e ++ r) = true) by (destruct e; reflexivity).
+  rewrite (Hb Wb _ fuel Bf) by lia. cbn [pbind].
+  rewrite (He We r fuel) by lia. reflexivity.
+Qed.
+
+Lemma P_s_fornum v e1 e2 b : P_e e1 -> P_e e2 -> P_b b -> P_s (SFornum v e1 e2 b).
+Proof.
+  intros H1 H2 Hb W r fuel Hs Hf. cbn [wf_s pr_s norm_s c_s] in *.
+  apply andb_true_iff in W. destruct W as [W Wb]. apply andb_true_iff in W. destruct W as [W1 W2].
+  destruct (H1 W1) as [_ A1]. destruct (H2 W2) as [_ A2]. stat_start fuel Hf.
+  cbn [expect_name]. change (pty (tname v)) with TIdent. change (ptext (tname v)) with v. eval_tests.
+  change (pty (tk 61)) with 61. eval_tests.
+  rewrite (E1_value e1 A1 _ fuel) by (try reflexivity; lia). cbn [pbind expect]. eval_tests.
+  change (pty (tk 44)) with 44. eval_tests.
+  rewrite (E1_value e2 A2 _ fuel) by (try reflexivity; lia). cbn [pbind expect].
+  change (pty (tk TDo)) with TDo. eval_tests.
+  rewrite (Hb Wb (tk TEnd :: r) fuel eq_refl) by lia. cbn [pbind expect].
+  change (pty (tk TEnd)) with TEnd. eval_tests. reflexivity.
+Qed.
+
+Lemma P_s_fornum3 v e1 e2 e3 b : P_e e1 -> P_e e2 -> P_e e3 -> P_b b -> P_s (SFornum3 v e1 e2 e3 b).
+Proof.
+  intros H1 H2 H3 Hb W r fuel Hs Hf. cbn [wf_s pr_s norm_s c_s] in *.
+  apply andb_true_iff in W. destruct W as [W Wb]. apply andb_true_iff in W. destruct W as [W W3].
+  apply andb_true_iff in W. destruct W as [W1 W2].
+  destruct (H1 W1) as [_ A1]. destruct (H2 W2) as [_ A2]. destruct (H3 W3) as [_ A3]. stat_start fuel Hf.
+  cbn [expect_name]. change (pty (tname v)) with TIdent. change (ptext (tname v)) with v. eval_tests.
+  change (pty (tk 61)) with 61. eval_tests.
+  rewrite (E1_value e1 A1 _ fuel) by (try reflexivity; lia). cbn [pbind expect].
+  change (pty (tk 44)) with 44. eval_tests.
+  rewrite (E1_value e2 A2 _ fuel) by (try reflexivity; lia). cbn [pbind expect].
+  change (pty (tk 44)) with 44. eval_tests.
+  rewrite (E1_value e3 A3 _ fuel) by (try reflexivity; lia). cbn [pbind expect].
+  change (pty (tk TDo)) with TDo. eval_tests.
+  rewrite (Hb Wb (tk TEnd :: r) fuel eq_refl) by lia. cbn [pbind expect].
+  change (pty (tk TEnd)) with TEnd. eval_tests. reflexivity.
+Qed.
+
+Lemma sep_names_cons sep a ns X :
+  sep_names sep (a :: ns) ++ X = tname a :: (match ns with [] => X | _ => tk sep :: sep_names sep ns ++ X end).
+Proof. destruct ns; reflexivity. Qed.
+
+Lemma P_s_forin ns es b : P_el es -> P_b b -> P_s (SForin ns es b).
+Proof.
+  intros He Hb W r fuel Hs Hf. cbn [wf_s pr_s norm_s c_s] in *.
+  apply andb_true_iff in W. destruct W as [W Wb]. apply andb_true_iff in W. destruct W as [W We].
+  apply andb_true_iff in W. destruct W as [Wn Wne].
+  destruct (He We) as (Hx & _ & _). stat_start fuel Hf.
+  destruct ns as [|a ns']; [discriminate|].
+  pose proof (names_rt 44 (a :: ns') (tk TIn :: pr_el es ++ tk TDo :: pr_b b ++ tk TEnd :: r) fuel
+                ltac:(congruence) ltac:(cbv; discriminate) ltac:(simpl in *; lia)) as NR.
+  rewrite sep_names_cons in *. cbn [expect_name]. change (pty (tname a)) with TIdent. eval_tests.
+  assert (T : match (match ns' with [] => tk TIn :: pr_el es ++ tk TDo :: pr_b b ++ tk TEnd :: r
+                     | _ :: _ => tk 44 :: sep_names 44 ns' ++ tk TIn :: pr_el es ++ tk TDo :: pr_b b ++ tk TEnd :: r end)
+              with t1 :: _ => pty t1 =? 61 | [] => true end = false) by (destruct ns'; reflexivity).
+  destruct (match ns' with [] => _ | _ :: _ => _ end) as [|t1 r2] eqn:E1; [discriminate|].
+  rewrite T. rewrite NR. cbn [pbind expect]. change (pty (tk TIn)) with TIn. eval_tests.
+  rewrite (Hx Wne (tk TDo :: pr_b b ++ tk TEnd :: r) fuel eq_refl) by lia. cbn [pbind expect]. change (pty (tk TDo)) with TDo. eval_tests.
+  rewrite (Hb Wb (tk TEnd :: r) fuel eq_refl) by lia. cbn [pbind expect].
+  change (pty (tk TEnd)) with TEnd. eval_tests. reflexivity.
+Qed.
+
+Lemma P_s_function path m fb : P_fb fb -> P_s (SFunction path m fb).
+Proof.
+  intros Hfb W r fuel Hs Hf. cbn [wf_s pr_s norm_s c_s] in *.
+  apply andb_true_iff in W. destruct W as [Wp Wf]. stat_start fuel Hf.
+  destruct fb as [ps va b]. destruct path as [|a path']; [discriminate|].
+  destruct m as [n|].
+  - cbn [app].
+    rewrite (names_rt 46 (a :: path') (tk 58 :: tname n :: pr_fb (FBody ps va b) ++ r) fuel)
+      by (try congruence; try (cbv; discriminate); simpl in *; lia).
+    cbn [pbind]. change (pty (tk 58)) with 58. eval_tests. cbn [expect_name].
+    change (pty (tname n)) with TIdent. change (ptext (tname n)) with n. eval_tests.
+    rewrite (Hfb Wf r fuel) by (simpl in *; lia). reflexivity.
+  - cbn [app]. cbn [pr_fb]. norm_app.
+    rewrite (names_rt 46 (a :: path') (tk 40 :: pr_params ps va ++ tk 41 :: pr_b b ++ tk TEnd :: r) fuel)
+      by (try congruence; try (cbv; discriminate); simpl in *; lia).
+    cbn [pbind]. change (pty (tk 40)) with 40. eval_tests.
+    pose proof (Hfb Wf r fuel ltac:(simpl in *; lia)) as Hb. cbn [pr_fb] in Hb.
+    revert Hb. norm_app. intros Hb. rewrite Hb. reflexivity.
+Qed.
+
+Lemma P_s_localfunction n fb : P_fb fb -> P_s (SLocalFunction n fb).
+Proof.
+  intros Hfb W r fuel Hs Hf. cbn [wf_s pr_s norm_s c_s] in *. stat_start fuel Hf.
+  change (pty (tk TFunction)) with TFunction. eval_tests. cbn [expect_name].
+  change (pty (tname n)) with TIdent. change (ptext (tname n)) with n. eval_tests.
+  rewrite (Hfb W r fuel) by lia. reflexivity.
+Qed.
+
+Lemma P_s_local ns es : P_el es -> P_s (SLocal ns es).
+Proof.
+  intros He W r fuel Hs Hf. cbn [wf_s norm_s c_s] in *.
+  apply andb_true_iff in W. destruct W as [Wn We]. destruct (He We) as (Hx & _ & _).
+  destruct ns as [|a ns']; [discriminate|].
+  assert (Hr44 : hd_ty r <> 44 /\ hd_ty r <> 61).
+  { destruct r as [|t X]; [split; discriminate|]. cbn [safe hd_ty] in *. lia. }
+  destruct es as [|e r0].
+  - cbn [pr_s]. stat_start fuel Hf.
+    rewrite sep_names_cons. change (pty (tname a)) with TIdent. eval_tests. rewrite <- sep_names_cons.
+    rewrite (names_rt 44 (a :: ns') r fuel) by (try congruence; try tauto; simpl in *; lia).
+    cbn [pbind norm_el]. destruct r as [|t2 X]; auto. cbn [hd_ty] in Hr44.
+    replace (pty t2 =? 61) with false by lia. reflexivity.
+  - cbn [pr_s]. stat_start fuel Hf.
+    rewrite sep_names_cons. change (pty (tname a)) with TIdent. eval_tests. rewrite <- sep_names_cons.
+    rewrite (names_rt 44 (a :: ns') (tk 61 :: pr_el (ELCons e r0) ++ r) fuel)
+      by (try congruence; try (cbv; discriminate); simpl in *; lia).
+    cbn [pbind]. change (pty (tk 61)) with 61. eval_tests.
+    rewrite (Hx eq_refl r fuel Hs) by (simpl in *; lia). reflexivity.
+Qed.
+
+Lemma P_s_goto n : P_s (SGoto n).
+Proof.
+  intros _ r fuel Hs Hf. cbn [pr_s norm_s c_s] in *. stat_start fuel Hf. cbn [expect_name].
+  change (pty (tname n)) with TIdent. eval_tests. reflexivity.
+Qed.
+
+Lemma P_s_label n : P_s (SLabel n).
+Proof.
+  intros _ r fuel Hs Hf. cbn [pr_s norm_s c_s] in *. stat_start fuel Hf. cbn [expect_name expect].
+  change (pty (tname n)) with TIdent. eval_tests. change (pty (tk T2Colon)) with T2Colon. eval_tests. reflexivity.
+Qed.
+
+(* exprstat: the first token is a Name or "(": none of the statement keywords *)
+Lemma stat_to_exprstat fuel t X :
+  (pty t = TIdent \/ pty t = 40) ->
+  p_stat d (S fuel) (t :: X) =
+  pbind (p_suffixed d fuel (t :: X)) (fun ep r1 =>
+    let '(e, par) := ep in
+    if is_call e && negb par then POk (SCall e) r1
+    else if d_parencall d && par && (match e with EParen x => is_call x | _ => false end)
+    then POk (SCall e) r1
+    else if is_var e && negb par then
+      pbind (p_targets d fuel r1) (fun ts r2 => expect 61 r2 (fun r3 =>
+      pbind (p_explist d fuel r3) (fun es rest => POk (SAssign (ELCons e ts) es) rest)))
+    else PErr PSyntax).
+Proof. intros H. rewrite p_stat_eq. cbv zeta. destruct H as [H|H]; rewrite H; reflexivity. Qed.
+
+Lemma P_s_call e : P_e e -> P_s (SCall e).
+Proof.
+  intros He W r fuel Hs Hf. cbn [wf_s pr_s norm_s c_s] in *.
+  apply andb_true_iff in W. destruct W as [Wc We]. destruct (He We) as [H2 _].
+  destruct (is_call_norm e Wc) as (Cn & Fl & Pf).
+  destruct fuel as [|f]; [lia|].
+  destruct (pr_prefix_first e r) as (t & X & Et & Ht). rewrite Et.
+  rewrite (stat_to_exprstat f t X Ht). rewrite <- Et.
+  rewrite (H2 Pf r (POk (norm_e e, pflag e) r) 1%nat).
+  - cbn [pbind]. rewrite Fl, Cn. reflexivity.
+  - intros fu Hfu. apply sufloop_stop; auto using safe_nosuf.
+  - pose proof (c_e_ge e). lia.
+Qed.
+
+Lemma is_call_var e : is_var e = true -> is_call e = false.
+Proof. destruct e; simpl; intros; try discriminate; reflexivity. Qed.
+
+Lemma P_s_assign ts es : P_el ts -> P_el es -> P_s (SAssign ts es).
+Proof.
+  intros Ht He W r fuel Hs Hf. cbn [wf_s pr_s norm_s c_s] in *.
+  apply andb_true_iff in W. destruct W as [W Wes]. apply andb_true_iff in W. destruct W as [W Wne].
+  apply andb_true_iff in W. destruct W as [W Wts]. apply andb_true_iff in W. destruct W as [Wnt Wv].
+  destruct (Ht Wts) as (_ & _ & Hc). destruct (He Wes) as (Hx & _ & _).
+  destruct ts as [|e r0]; [discriminate|]. cbn [tgt_clause] in Hc.
+  destruct fuel as [|f]; [lia|].
+  destruct (Hc Wv (pr_el es ++ r) f ltac:(lia)) as [A B].
+  assert (E : (pr_targets (ELCons e r0) ++ tk 61 :: pr_el es) ++ r = pr_prefix e ++ ptt r0 ++ tk 61 :: pr_el es ++ r).
+  { destruct r0; cbn [pr_targets ptt]; norm_app; reflexivity. }
+  rewrite E. clear E.
+  destruct (pr_prefix_first e (ptt r0 ++ tk 61 :: pr_el es ++ r)) as (t & X & Et & Htt). rewrite Et.
+  rewrite (stat_to_exprstat f t X Htt). rewrite <- Et. rewrite A. cbn [pbind].
+  cbn [all_var] in Wv. apply andb_true_iff in Wv. destruct Wv as [Wve _].
+  destruct (is_var_norm' e Wve) as [Vn _]. rewrite (is_call_var _ Vn), Vn.
+  cbn [andb negb]. rewrite andb_false_r. cbn [andb].
+  rewrite B. cbn [pbind expect]. change (pty (tk 61) =? 61) with true. cbv iota.
+  rewrite (Hx Wne r f Hs) by lia. reflexivity.
+Qed.
+
+(* ---------- assembling the mutual induction ---------- *)
+
+Lemma nonprefix_P e : is_prefix e = false -> pfx_ok e = true -> E1bare e -> E2 e /\ E1 e.
+Proof.
+  intros Hn Hp Hb. pose proof (E2_nonprefix e Hn Hb) as H2. split; auto. apply E1_from_bare; auto.
+Qed.
+
+Lemma prefix_P e : is_prefix e = true -> pfx_ok e = true -> E2 e -> E2 e /\ E1 e.
+Proof. intros Hp Hpf H2. split; auto. apply E1_from_prefix; auto. Qed.
+
+Theorem roundtrip_all :
+  (forall e, P_e e) /\ (forall a, P_a a) /\ (forall es, P_el es) /\ (forall fs, P_fl fs) /\
+  (forall f0, P_f f0) /\ (forall fb, P_fb fb) /\ (forall b, P_b b) /\ (forall l, P_l l) /\
+  (forall s, P_s s) /\ (forall e, P_else e).
+Proof.
+  apply ast_mutind.
+  (* expr *)
+  - intros _. apply nonprefix_P; auto. apply E1bare_nil.
+  - intros _. apply nonprefix_P; auto. apply E1bare_true.
+  - intros _. apply nonprefix_P; auto. apply E1bare_false.
+  - intros _. split; [intros H; discriminate|]. apply E1_vararg_from, E1bare_vararg.
+  - intros s _. apply nonprefix_P; auto. apply E1bare_number.
+  - intros s _. apply nonprefix_P; auto. apply E1bare_string.
+  - intros f Hf W. apply nonprefix_P; auto. apply E1bare_function; auto.
+  - intros fs Hfs W. apply nonprefix_P; auto. apply E1bare_table; auto.
+  - intros op a Ha b Hb W. cbn [wf_e] in W. apply andb_true_iff in W. destruct W as [Wa Wb].
+    apply nonprefix_P; auto. apply E1bare_bin; [apply (Ha Wa)|apply (Hb Wb)].
+  - intros op a Ha W. cbn [wf_e] in W. apply nonprefix_P; auto. apply E1bare_un. apply (Ha W).
+  - intros n _. apply prefix_P; auto. apply E2_name.
+  - intros p Hp k Hk W. cbn [wf_e] in W. apply andb_true_iff in W. destruct W as [W Wk].
+    apply andb_true_iff in W. destruct W as [Wpf Wp].
+    apply prefix_P; auto. apply E2_index; auto; [apply (Hp Wp)|apply (Hk Wk)].
+  - intros p Hp n W. cbn [wf_e] in W. apply andb_true_iff in W. destruct W as [Wpf Wp].
+    apply prefix_P; auto. apply E2_field; auto. apply (Hp Wp).
+  - intros p Hp a Ha W. cbn [wf_e] in W. apply andb_true_iff in W. destruct W as [W Wa].
+    apply andb_true_iff in W. destruct W as [Wpf Wp].
+    apply prefix_P; auto. apply E2_call; auto. apply (Hp Wp).
+  - intros p Hp n a Ha W. cbn [wf_e] in W. apply andb_true_iff in W. destruct W as [W Wa].
+    apply andb_true_iff in W. destruct W as [Wpf Wp].
+    apply prefix_P; auto. apply E2_method; auto. apply (Hp Wp).
+  - intros x Hx W. cbn [wf_e] in W. apply prefix_P; auto. apply E2_paren_case. apply (Hx W).
+  (* args *)
+  - intros es He. apply P_a_list; auto. apply P_fl_nil.
+  - intros fs Hfs. apply P_a_table; auto.
+  - intros s. apply P_a_string.
+  (* exprlist *)
+  - apply P_el_nil.
+  - intros e He r Hr. apply P_el_cons; auto.
+  (* fieldlist *)
+  - apply P_fl_nil.
+  - intros f0 Hf0 r Hr. apply P_fl_cons; auto.
+  (* field *)
+  - intros e He. apply P_f_pos; auto.
+  - intros n e He. apply P_f_named; auto.
+  - intros k Hk e He. apply P_f_key; auto.
+  (* funcbody *)
+  - intros ps va b Hb. apply P_fb_body; auto.
+  (* block *)
+  - apply P_b_nil.
+  - intros l Hl sm. apply P_b_last; auto.
+  - intros s Hs sm r Hr. apply P_b_cons; auto.
+  (* laststat *)
+  - intros es He. apply P_l_return; auto.
+  - apply P_l_break.
+  (* stat *)
+  - intros ts Ht es He. apply P_s_assign; auto.
+  - intros e He. apply P_s_call; auto.
+  - intros b Hb. apply P_s_do; auto.
+  - intros c Hc b Hb. apply P_s_while; auto.
+  - intros b Hb c Hc. apply P_s_repeat; auto.
+  - intros c Hc b Hb e He. apply P_s_if; auto.
+  - intros v e1 H1 e2 H2 b Hb. apply P_s_fornum; auto.
+  - intros v e1 H1 e2 H2 e3 H3 b Hb. apply P_s_fornum3; auto.
+  - intros ns es He b Hb. apply P_s_forin; auto.
+  - intros path m f Hf. apply P_s_function; auto.
+  - intros n f Hf. apply P_s_localfunction; auto.
+  - intros ns es He. apply P_s_local; auto.
+  - intros n. apply P_s_goto.
+  - intros n. apply P_s_label.
+  (* elsepart *)
+  - apply P_else_none.
+  - intros c Hc b Hb e He. apply P_else_elseif; auto.
+  - intros b Hb. apply P_else_else; auto.
+Qed.
+
+(* the whole chunk, for any amount of fuel that covers the tree *)
+Lemma roundtrip_fuel b fuel :
+  wf_b b = true -> c_b b <=n fuel -> parse_fuel d fuel (print b) = ParseOk (norm_b b).
+Proof.
+  intros W Hf. unfold parse_fuel, print.
+  destruct roundtrip_all as (_ & _ & _ & _ & _ & _ & Hb & _).
+  pose proof (Hb b W [] fuel eq_refl Hf) as H. rewrite app_nil_r in H. rewrite H. reflexivity.
+Qed.
+
+End RoundTrip.
+
+(* ---------- the fuel a tree needs is at most 32 per printed token + 8 ---------- *)
+
+Notation tl_ x := (length x) (only parsing).
+
+Definition B_e (e : expr) : Prop :=
+  (forall L p, c_e e + 24 <= 32 * tl_ (pr_e L p e))%nat /\ (c_e e + 24 <= 32 * tl_ (pr_prefix e))%nat.
+Definition B_a (a : args) : Prop := (c_a a + 8 <= 32 * tl_ (pr_a a))%nat.
+Definition B_el (es : exprlist) : Prop :=
+  (c_el es <= 32 * tl_ (pr_el es) + 16)%nat /\ (c_el es <= 32 * tl_ (pr_targets es) + 16)%nat /\
+  (nonempty_el es = true -> (c_el es + 8 <= 32 * tl_ (pr_el es))%nat /\ (c_el es + 8 <= 32 * tl_ (pr_targets es))%nat).
+Definition B_fl (fs : fieldlist) : Prop := (c_fl fs <= 32 * tl_ (pr_fl fs) + 24)%nat.
+Definition B_f (f0 : field) : Prop := (c_f f0 <= 32 * tl_ (pr_f f0) + 8)%nat.
+Definition B_fb (fb : funcbody) : Prop := (c_fb fb <= 32 * tl_ (pr_fb fb))%nat.
+Definition B_b (b : block) : Prop := (c_b b <= 32 * tl_ (pr_b b) + 8)%nat.
+Definition B_l (l : laststat) : Prop := (c_l l <= 32 * tl_ (pr_l l))%nat.
+Definition B_s (s : stat) : Prop := (c_s s + 8 <= 32 * tl_ (pr_s s))%nat.
+Definition B_else (e : elsepart) : Prop := (c_else e <= 32 * tl_ (pr_else e))%nat.
+
+Lemma sep_names_len sep ns : (length ns <= length (sep_names sep ns))%nat.
+Proof.
+  induction ns as [|a ns IH]; simpl; auto. destruct ns; simpl in *; lia.
+Qed.
+
+Lemma pr_params_len ps va : (length ps <= length (pr_params ps va))%nat.
+Proof.
+  pose proof (sep_names_len 44 ps). destruct ps, va; simpl in *; try lia; rewrite ?app_length; simpl; lia.
+Qed.
+
+Ltac lens := repeat (rewrite app_length in * || cbn [length] in * ).
+
+Theorem cost_bound_all :
+  (forall e, B_e e) /\ (forall a, B_a a) /\ (forall es, B_el es) /\ (forall fs, B_fl fs) /\
+  (forall f0, B_f f0) /\ (forall fb, B_fb fb) /\ (forall b, B_b b) /\ (forall l, B_l l) /\
+  (forall s, B_s s) /\ (forall e, B_else e).
+Proof.
+  apply ast_mutind; unfold B_e, B_a, B_el, B_fl, B_f, B_fb, B_b, B_l, B_s, B_else.
+  (* expr *)
+  - split; [intros L p|]; simpl; lia.
+  - split; [intros L p|]; simpl; lia.
+  - split; [intros L p|]; simpl; lia.
+  - split; [intros L p|]; simpl; lia.
+  - intros s. split; [intros L p|]; simpl; lia.
+  - intros s. split; [intros L p|]; simpl; lia.
+  - intros f Hf. split; [intros L p|]; cbn [pr_e pr_prefix c_e]; lens; lia.
+  - intros fs Hfs. split; [intros L p|]; cbn [pr_e pr_prefix c_e]; lens; lia.
+  - intros op a [Ha _] b [Hb _]. split; [intros L p|]; cbn [pr_e pr_prefix c_e].
+    + destruct (bare_ok L p (EBin op a b)); lens.
+      * specialize (Ha L (prio_left op)). specialize (Hb (prio_right op) p). lia.
+      * specialize (Ha 0 (prio_left op)). specialize (Hb (prio_right op) 0). lia.
+    + lens. specialize (Ha 0 (prio_left op)). specialize (Hb (prio_right op) 0). lia.
+  - intros op a [Ha _]. split; [intros L p|]; cbn [pr_e pr_prefix c_e].
+    + destruct (bare_ok L p (EUn op a)); lens.
+      * specialize (Ha unary_priority p). lia.
+      * specialize (Ha unary_priority 0). lia.
+    + lens. specialize (Ha unary_priority 0). lia.
+  - intros n. split; [intros L p|]; simpl; lia.
+  - intros p [_ Hp] k [Hk _]. specialize (Hk 0 0). split; [intros L q|]; cbn [pr_e pr_prefix c_e]; lens; lia.
+  - intros p [_ Hp] n. split; [intros L q|]; cbn [pr_e pr_prefix c_e]; lens; lia.
+  - intros p [_ Hp] a Ha. split; [intros L q|]; cbn [pr_e pr_prefix c_e]; lens; lia.
+  - intros p [_ Hp] n a Ha. split; [intros L q|]; cbn [pr_e pr_prefix c_e]; lens; lia.
+  - intros x [Hx _]. specialize (Hx 0 0). split; [intros L q|]; cbn [pr_e pr_prefix c_e]; lens; lia.
+  (* args *)
+  - intros es (He & _ & _). cbn [pr_a c_a]. lens. lia.
+  - intros fs Hfs. cbn [pr_a c_a]. lens. lia.
+  - intros s. simpl. lia.
+  (* exprlist *)
+  - simpl. repeat split; try lia; discriminate.
+  - intros e [He Hp] r (Hr1 & Hr2 & Hr3). specialize (He 0 0).
+    destruct r as [|e' r'].
+    + cbn [pr_el pr_targets c_el]. repeat split; try lia; intros _; lia.
+    + specialize (Hr3 eq_refl). destruct Hr3 as [Hr3 Hr4].
+      change (pr_el (ELCons e (ELCons e' r'))) with (pr_e 0 0 e ++ tk 44 :: pr_el (ELCons e' r')).
+      change (pr_targets (ELCons e (ELCons e' r'))) with (pr_prefix e ++ tk 44 :: pr_targets (ELCons e' r')).
+      cbn [c_el] in *. lens. repeat split; try lia; intros _; lia.
+  (* fieldlist *)
+  - simpl. lia.
+  - intros f0 Hf0 r Hr. destruct r as [|f1 r'].
+    + cbn [pr_fl c_fl]. lia.
+    + change (pr_fl (FLCons f0 (FLCons f1 r'))) with (pr_f f0 ++ tk 44 :: pr_fl (FLCons f1 r')).
+      cbn [c_fl] in *. lens. lia.
+  (* field *)
+  - intros e [He _]. specialize (He 0 0). cbn [pr_f c_f]. lia.
+  - intros n e [He _]. specialize (He 0 0). cbn [pr_f c_f]. lens. lia.
+  - intros k [Hk _] e [He _]. specialize (Hk 0 0). specialize (He 0 0). cbn [pr_f c_f]. lens. lia.
+  (* funcbody *)
+  - intros ps va b Hb. cbn [pr_fb c_fb]. pose proof (pr_params_len ps va). lens. lia.
+  (* block *)
+  - simpl. lia.
+  - intros l Hl sm. cbn [pr_b c_b]. lens. destruct sm; simpl; lia.
+  - intros s Hs sm r Hr. cbn [pr_b c_b]. lens. lia.
+  (* laststat *)
+  - intros es (He & _ & _). cbn [pr_l c_l]. lens. lia.
+  - simpl. lia.
+  (* stat *)
+  - intros ts (_ & _ & Ht) es (_ & _ & He). cbn [pr_s c_s]. lens.
+    destruct ts as [|t0 ts'], es as [|e0 es']; cbn [c_el pr_targets pr_el length] in *; try lia;
+      try (destruct (Ht eq_refl)); try (destruct (He eq_refl)); lia.
+  - intros e [_ He]. cbn [pr_s c_s]. lia.
+  - intros b Hb. cbn [pr_s c_s]. lens. lia.
+  - intros c [Hc _] b Hb. specialize (Hc 0 0). cbn [pr_s c_s]. lens. lia.
+  - intros b Hb c [Hc _]. specialize (Hc 0 0). cbn [pr_s c_s]. lens. lia.
+  - intros c [Hc _] b Hb e He. specialize (Hc 0 0). cbn [pr_s c_s]. lens. lia.
+  - intros v e1 [H1 _] e2 [H2 _] b Hb. specialize (H1 0 0). specialize (H2 0 0). cbn [pr_s c_s]. lens. lia.
+  - intros v e1 [H1 _] e2 [H2 _] e3 [H3 _] b Hb. specialize (H1 0 0). specialize (H2 0 0). specialize (H3 0 0).
+    cbn [pr_s c_s]. lens. lia.
+  - intros ns es (He & _ & _) b Hb. cbn [pr_s c_s]. pose proof (sep_names_len 44 ns). lens. lia.
+  - intros path m f Hf. cbn [pr_s c_s]. pose proof (sep_names_len 46 path). lens. destruct m; cbn [length]; lia.
+  - intros n f Hf. cbn [pr_s c_s]. lens. lia.
+  - intros ns es (He & _ & _). pose proof (sep_names_len 44 ns). destruct es; cbn [pr_s c_s c_el]; lens; try lia.
+    cbn [c_el] in He. lia.
+  - intros n. simpl. lia.
+  - intros n. simpl. lia.
+  (* elsepart *)
+  - simpl. lia.
+  - intros c [Hc _] b Hb e He. specialize (Hc 0 0). cbn [pr_else c_else]. lens. lia.
+  - intros b Hb. cbn [pr_else c_else]. lens. lia.
+Qed.
+
+Lemma cost_bound b : (c_b b <= 32 * length (print b) + 32)%nat.
+Proof. destruct cost_bound_all as (_ & _ & _ & _ & _ & _ & Hb & _). unfold print. specialize (Hb b). unfold B_b in Hb. lia. Qed.
+
+(* ---------- headline ---------- *)
+
+(* the reference parser reads back what the reference printer writes, in either dialect *)
+Theorem parse_print_roundtrip_lemma d b :
+  wf_b b = true -> parse_d d (print b) = ParseOk (norm_b b).
+Proof. intros W. unfold parse_d. apply roundtrip_fuel; auto. apply cost_bound. Qed.
+
+(* ---------- corollaries ---------- *)
+
+(* a tree in normal form (no optional ";" flag set, parentheses only around calls and "...") *)
+Definition normal (b : block) : Prop := norm_b b = b.
+
+Theorem parse_print_normal d b : wf_b b = true -> normal b -> parse_d d (print b) = ParseOk b.
+Proof. intros W N. rewrite parse_print_roundtrip_lemma by auto. rewrite N. reflexivity. Qed.
+
+(* two trees that differ only in optional semicolons and meaningless parentheses parse alike *)
+Theorem parse_ignores_layout_lemma d b1 b2 :
+  wf_b b1 = true -> wf_b b2 = true -> norm_b b1 = norm_b b2 ->
+  parse_d d (print b1) = parse_d d (print b2).
+Proof. intros W1 W2 E. rewrite !parse_print_roundtrip_lemma by auto. rewrite E. reflexivity. Qed.
+
+(* what "optional" and "meaningless" mean: the steps that norm_b does not see *)
+Lemma norm_semi_irrelevant s sm sm' r : norm_b (BCons s sm r) = norm_b (BCons s sm' r).
+Proof. reflexivity. Qed.
+
+Lemma norm_semi_last_irrelevant l sm sm' : norm_b (BLast l sm) = norm_b (BLast l sm').
+Proof. reflexivity. Qed.
+
+Lemma norm_paren_irrelevant x : multi (norm_e x) = false -> norm_e (EParen x) = norm_e x.
+Proof. intros H. cbn [norm_e]. unfold paren_wrap. rewrite H. reflexivity. Qed.
+
+(* parentheses around a call or "..." are kept: they change the meaning *)
+Lemma norm_paren_kept x : multi (norm_e x) = true -> norm_e (EParen x) = EParen (norm_e x).
+Proof. intros H. cbn [norm_e]. unfold paren_wrap. rewrite H. reflexivity. Qed.
